@@ -84,6 +84,7 @@ EXPECTED_FACTS = {
         "syncData: isFullSync",
         "syncData: aofWriter == nil",
         "readChannel: wait.IsClosed()",
+        "readChannel: errors.Is(err, pkgCommon.ErrCorrupted)",
         "sendOutput: wait.IsClosed()",
         "sendOutput: !reader.IsAof()"
     ],
@@ -101,14 +102,11 @@ EXPECTED_FACTS = {
         "synSp.ToOffset()",
         "synSp.ToOffset()"
     ],
-    "c06_sendpsync_offset": [
-        "if offset >= 0",
-        "offset += 1",
-        "err := sr.cli.SendAndFlush(\"psync\", runid, strconv.FormatInt(offset, 10))",
-        "sr.cli.SendAndFlush(\"psync\", runid, strconv.FormatInt(offset, 10))",
-        "return runid, offset - 1, nil, nil",
-        "runid, offset := xx[1], v",
-        "return runid, offset, sr.waitRdbDump(), nil"
+    "c06_psync_gen": [
+        "guard=0 add=1 contSub=1 contId=1 fullMin=3 fullId=1 fullOff=2 base=10 bits=64"
+    ],
+    "c06_sendpsync_wire": [
+        "sr.cli.SendAndFlush(\"psync\", runid, strconv.FormatInt(offset, 10))"
     ],
     "c06_syncmeta_ifs": [
         "slices.Contains(inputIds, outSp.RunId) && slices.Contains(inputIds, locSp.RunId)",
@@ -117,7 +115,7 @@ EXPECTED_FACTS = {
         "slices.Contains(inputIds, outSp.RunId)",
         "!isFullSync",
         "slices.Contains(inputIds, locSp.RunId) && outSp.IsInitial()",
-        "locRdbLeft != -1 && locRdbSize != -1",
+        "GetRdb.0 != -1 && GetRdb.1 != -1",
         "!isFullSync",
         "isFullSync",
         "sOffset.RunId != id1",
@@ -129,7 +127,7 @@ EXPECTED_FACTS = {
 }
 
 PROP = {
-    "lean_modules": ["GunYu.Props.C06", "GunYu.Props.C06Loop", "GunYu.Props.C06Att", "GunYu.Props.C06Send", "GunYu.Props.C06Bisync"],
+    "lean_modules": ["GunYu.Props.C06", "GunYu.Props.C06Loop", "GunYu.Props.C06Att", "GunYu.Props.C06Send", "GunYu.Props.C06Bisync", "GunYu.Props.C06Mach", "GunYu.Props.C06Lives", "GunYu.Props.C06Gen"],
     "audit_namespaces": ["GunYu.Props.C06"],
     "required_theorems": [
         "GunYu.Props.C06.outcome_continue_or_full",
@@ -205,18 +203,49 @@ PROP = {
         "GunYu.Props.C06.point_outcome",
         "GunYu.Props.C06.bisync_outcome_continue_or_full",
         "GunYu.Props.C06.bisync_sync_mode_outcome",
+        # session 5: the whole loop as one machine, foreign answerers, collector schedules: Props/C06Mach.lean
+        "GunYu.Props.C06.request_id_of_info",
+        "GunYu.Props.C06.other_source_answers_full",
+        "GunYu.Props.C06.sibling_only_under_prev",
+        "GunYu.Props.C06.runX_in_loop",
+        "GunYu.Props.C06.runX_safe",
+        "GunYu.Props.C06.runX_safe_stale",
+        "GunYu.Props.C06.runX_stopped_attempts",
+        "GunYu.Props.C06.machine_example",
+        "GunYu.Props.C06.gc_request_is_writer_start",
+        "GunYu.Props.C06.gc_none_eq",
+        "GunYu.Props.C06.gc_reader_start_partial",
+        "GunYu.Props.C06.gc_log_reader_partial",
+        "GunYu.Props.C06.gc_full_reader_partial",
+        "GunYu.Props.C06.gc_branch4_reader_partial",
+        "GunYu.Props.C06.gc_schedule_safe_partial",
+        "GunYu.Props.C06.failed_setRunId_outcomes",
+        "GunYu.Props.C06.gc_old_second_read_breaks",
+        # session 5: the coupling with the sender's target over any number of lives and connections: Props/C06Lives.lean
+        "GunYu.Props.C06.offset_unchanged_before_send",
+        "GunYu.Props.C06.lives6_coupled",
+        "GunYu.Props.C06.lives6_next_start",
+        # session 5: SendPSync's arithmetic and reply shapes regenerated (Gen/C06Psync.lean): Props/C06Gen.lean
+        "GunYu.Props.C06.gen_wireOf_eq_model",
+        "GunYu.Props.C06.gen_wireOf64_eq_model",
+        "GunYu.Props.C06.gen_contOff_eq_model",
+        "GunYu.Props.C06.gen_contOff64_eq_model",
+        "GunYu.Props.C06.gen_reply_shape",
     ],
     "expected_facts": EXPECTED_FACTS,
     "harness": [{"name": "C06", "pkg": "./syncer/", "test": "TestVerifC06",
                  "timeout_quick": "10m", "timeout_thorough": "40m"},
                 {"name": "C06b", "pkg": "./syncer/", "test": "TestVerifC06Bisync"},
-                {"name": "C06c", "pkg": "./syncer/", "test": "TestVerifC06Att", "timeout_quick": "10m", "timeout_thorough": "40m"}],
+                {"name": "C06c", "pkg": "./syncer/", "test": "TestVerifC06Att", "timeout_quick": "10m", "timeout_thorough": "40m"},
+                {"name": "C06d", "pkg": "./syncer/", "test": "TestVerifC06Gc", "timeout_quick": "10m", "timeout_thorough": "40m"}],
     "driver": "drv_C06",
     "rule": "one op per (re)connection: the real RedisInput.run (fetchInput, syncMeta, pSync/SendPSync, syncData, readChannel, "
             "sendOutput) with the real StoreChannel (pkg/store, temp dir) or MemoryChannel runs against a RESP source double on "
             "127.0.0.1 (PING, INFO replication, REPLCONF, PSYNC with Redis's masterTryPartialResynchronization rule, +CONTINUE [id], "
             "+FULLRESYNC id off, optional LF heartbeats, $len snapshot, stream bytes), a recording Output and a recording proxy "
-            "around the Channel. Generated triples: source {no previous id | failover with previous id and switch offset} x backlog "
+            "around the Channel. Volumes (session 5): 900 generated cases in the quick tier, 8000 in the thorough tier (were 1200 / 20000: the "
+            "collector x (re)connection sampling - gcloop every 32nd case, gcrace - is superseded by the enumeration of session C06d; every KIND "
+            "is kept); C06c 240 / 1800 attempt ops. Generated triples: source {no previous id | failover with previous id and switch offset} x backlog "
             "{from 1 | window | empty | lost}; stored position {'?' | current id | previous id | unknown id} x offset drawn from the "
             "interesting points (cache left/mid/right +-1, snapshot left/left-size, switch offset +-1, backlog first +-1, master +-1, "
             "0, random); cache {no label | label only | snapshot | log | snapshot+log} x label {current | previous | other} x range "
@@ -242,7 +271,10 @@ PROP = {
             "RedisOutput.Send (SendRdb, then SendAof/sendAof until everything is applied and the position stored): the snapshot-to-stream "
             "hand-off is judged on the target double's request log (exactly the two snapshot keys, then exactly the commands of the "
             "current history from the snapshot's / stored offset on, none missing, none twice) and the stored position is read back. "
-            "Window kinds: full-interrupted, restart-rekey, cached-interrupted, failover-continue (stale label in in-memory mode). "
+            "Window kinds: full-interrupted, restart-rekey, cached-interrupted (session 5: in resume mode half of them with the source having a "
+            "previous id and a stale LOWER record under that id in database 5 - what an interrupted relabel leaves: sendOutput's "
+            "ResetStartPoint must delete the records of all the source's labels before the cached snapshot is replayed), "
+            "failover-continue (stale label in in-memory mode). "
             "Every 16th case injects a fault into one bookkeeping call (output.ResetStartPoint 1st/2nd call, output.SetRunId, "
             "channel.DelRunId, channel.SetRunId): the run must end with an error and deliver nothing (monitor only). "
             "1/10 of the snapshot+log caches have a log that does not start at the snapshot's offset: on disk, and in memory when the "
@@ -286,12 +318,30 @@ PROP = {
             "delivered-after-failed-bookkeeping, failed-attempt-not-reported, break-not-reported, stream-bytes / snapshot-bytes against the "
             "ANSWERING source's history, continue-other-history (beyond the successor's switch offset; ground truth in the cut schedules), "
             "bisync-start-not-committed-position, loop-does-not-stop-on-break, attempt-after-break, state-changed-during-backoff, "
-            "no-backoff-after-failed-attempt",
+            "no-backoff-after-failed-attempt, corrupted-cache-kept (runloop k: after ErrCorrupted the loop is left AND the cache dropped). "
+            "Session C06d (TestVerifC06Gc, session 5): collector x (re)connection ENUMERATED - one pass of the REAL disk collector "
+            "(Storer.gcLog, the 30 s job) at each of the points of one real run() at which it can run between two channel calls (none; after "
+            "StartPoint; after IsValidOffset / before GetRdb; during the PSYNC round trip; after SetRunId before the writer; after the writer "
+            "before the reader) x {stored position in the old part of the cached log | in its newest part | before the cached snapshot | no "
+            "position} x {everything collected | snapshot and oldest segments collected}: 48 real connections, each followed by a connection "
+            "without a pass, in EVERY run (4 rounds with fresh parameters in the thorough tier). Op `gcp`: the images of the cache each call "
+            "saw (read through the channel's query API at that moment) go to the Lean `syncMetaG`; compared: branch, PSYNC line, reply, "
+            "DelRunId, run id, writer start, reader start. Monitors: psync-offset-convention, continue-later-start, continue-not-granted, "
+            "stream-bytes, snapshot-bytes, snapshot-behind-stored, cache-label, cache-bytes (read-back after both connections). "
+            "Scenario crc (2 per run): verifyCrc on, a closed segment of the disk cache damaged on disk; `entry` = the segment the reader is "
+            "opened in: the real Run() against an idle source must drop the cache and leave the loop after ONE attempt (counted by the INFO "
+            "commands served; three attempts on the same damaged cache = corrupted-cache-kept; found the defect fixed by feb3ca9); `next` = a "
+            "later segment: what the reader delivers must be a prefix of the history (RedisOutput.Send's own mapping of a failed decode to "
+            "ErrCorrupted is the sender's subject)",
     "trusted": [
         "Redis's PSYNC admission rule (replication.c masterTryPartialResynchronization / syncCommand) as transcribed in "
         "Model/Psync.lean `admitPsync` and, independently, in the Go source double `vf6Source.admit`; +CONTINUE/+FULLRESYNC/$len framing",
         "source double, recording output and channel proxy in harness/overlay/syncer/vf_c06_test.go; fault layers (one failing call), "
-        "lanes and the request-prefix rebuild (vfdoubles.ReplayWith) in harness/overlay/syncer/vf_c06_att_test.go",
+        "lanes and the request-prefix rebuild (vfdoubles.ReplayWith) in harness/overlay/syncer/vf_c06_att_test.go; the pass-placing "
+        "channel proxy of harness/overlay/syncer/vf_c06_gc_test.go (a pass runs in the goroutine of the channel call, under the proxy's lock)",
+        "Redis: a server's replid2 is its own former replid (or empty), so on ONE connection the ids INFO reported and the ids of the server "
+        "that answers PSYNC are related as `Successor` (one fail-over), equal, or share nothing after two and more changes - the sibling "
+        "combination (only INFO's previous id shared) cannot arise (sibling_only_under_prev bounds what it could grant)",
     ],
     "assumptions": [
         "CacheOK (bytes the cache holds under the source's current id are the current history's on the range it reports; under the "
@@ -319,8 +369,18 @@ PROP = {
         "(RedisOutput.StartPoint/SetRunId -> GetCheckpoint/UpdateCheckpoint re-keying is C17/C07's subject)",
         "single cache directory per input (the disk store can hold directories of several ids; only the one matching the source ids "
         "first is modelled); ids compare case-sensitively (Redis uses strcasecmp on hex ids)",
-        "syncMeta/SendPSync/channel query API and the attempt model (Model/PsyncAtt.lean: stageOf, attemptP, spTries, hdrOk, runStep) are "
-        "hand-written models tied by correspondence (not regenerated); the skeleton they "
+        "syncMeta/SendPSync/channel query API, the attempt model (Model/PsyncAtt.lean: stageOf, attemptP, spTries, hdrOk, runStep) and the "
+        "scheduled decision (Model/PsyncMach.lean: decisionG / syncMetaG, op `gcp`) are "
+        "hand-written models tied by correspondence; SendPSync's parsing is interleaved with its I/O, so no pure function of it exists for "
+        "gofn to translate - instead harness/extract/c06psync.go reads the statements that decide the numbers semantically (the guard and "
+        "increment of `if offset >= 0 { offset += 1 }` in any equivalent spelling, the `offset - 1` returned on +CONTINUE, the words, "
+        "minimal field counts and field indices of the two replies, ParseInt's base and width) and REGENERATES them on every run as "
+        "Gen/C06Psync.lean; Props/C06Gen.lean proves the generated `wireOf` / `contOff` equal to the model's for all inputs "
+        "(gen_wireOf_eq_model, gen_wireOf64_eq_model, gen_contOff_eq_model, gen_contOff64_eq_model, gen_reply_shape); a SendPSync the "
+        "generator cannot read is a broken tie (never approximated); the textual fact c06_sendpsync_offset is no longer expected, only "
+        "the wire format of the request (c06_sendpsync_wire) and the generated constants (c06_psync_gen); in c06_syncmeta_ifs the locals "
+        "that hold results of channel calls are printed as <Call>.<index> (GetRdb.0, GetRdb.1), so renaming them is not a tie failure; the machine `stepX` is `runStep` plus the constructors of `Loop` as events - its stale / "
+        "foreign / world events are tied through `staleAttempt` / `fullAttempt` (att ops), not run as event lists against the real Run(); the skeleton they "
         "transcribe (syncMeta's if-conditions and pSync arguments, its channel/output calls, SendPSync's offset statements; sendPsync's "
         "size loop and its guards, getOutputStartPoint's retry arguments and ErrBreak, Run's loop statements, runLoopBackoff's returns: "
         "c06_attempt_loop; the comparator of DelCheckpoint's deletion order: c06_delcheckpoint_order) is "
@@ -354,10 +414,12 @@ PROP = {
     "partial": [
         "the retry loop, the collector, the attempts call by call and the loop machine are modelled and proved (Props/C06Loop.lean, "
         "Props/C06Att.lean: run_in_loop, run_safe, failing_call_inv, attemptP_*, sendPSync64_eq, locErr_clears, del_prefix_safe) and "
-        "compared with the real run()/Run() (session C06c). What remains outside the Lean model: an attempt whose INFO and PSYNC are "
-        "answered by different sources is modelled for ONE failover in between (`staleAttempt`, compared op by op now) and, for any "
-        "other answering source under a new id, for the FULLRESYNC outcome (`fullBy`); a source two failovers away that would still grant "
-        "CONTINUE under an id INFO reported cannot exist in Redis and is not modelled; the loop's TIMING is not modelled (the 2 s back-off "
+        "compared with the real run()/Run() (session C06c). Session 5: an attempt whose INFO and PSYNC are "
+        "answered by different sources: ONE failover in between is `staleAttempt` (compared op by op); an answering source that shares NO id "
+        "with INFO's answers every request an attempt can make with FULLRESYNC (request_id_of_info, other_source_answers_full: the premise of "
+        "`Loop.fullBy`, proved for every stored position and cache); a source sharing only INFO's PREVIOUS id refuses everything but a "
+        "request under that id (sibling_only_under_prev) - a continuation granted THERE is the one combination outside the model (trusted: "
+        "cannot arise on one connection). What remains outside the Lean model: the loop's TIMING is not modelled (the 2 s back-off "
         "and the 3 x 2 s retries are events without duration; termination = `run_stopped_fixed` after ErrBreak / Stop only - a loop that "
         "never meets ErrBreak runs for ever by design); the Stage of a failed attempt is compared for failures injected between calls and "
         "after the writer finished - an attempt cut in the middle of the writer's ingestion is covered by the model's `Loop.cache` "
@@ -374,12 +436,33 @@ PROP = {
         "sequence is C17's model. The loop model follows the error lattice of syncer.go (run_leaves_iff: refused connection, three failed "
         "StartPoint, ErrCorrupted after DelRunId, a fatal Send error); getOutputStartPoint tests the closure's err, so a Stop() during "
         "the retries yields ErrBreak after 1-2 tries (spTries says three: harmless, the loop is being left anyway); hdrOk accepts sizes "
-        "above 2^63-1 that ParseInt refuses (never generated). run_in_loop / run_safe cover attempts against ONE source (each step is a "
-        "Loop.attempt); stale / fullBy attempts, source changes and the collector are constructors of `Loop`, not events of the machine. "
-        "Concurrency between syncMeta and the collector is not in the model (one attempt reads ONE cache description): the one place where "
-        "the code read the cache twice across the PSYNC round trip is gone (N9; branch4_writer_offset: for a well-formed cache the model's "
-        "second reading equals the first), a pass between StartPoint/IsValidOffset/GetRdb and the writer / reader creation otherwise ends "
-        "in a refused writer or reader (gcrace, monitor only). "
+        "above 2^63-1 that ParseInt refuses (never generated). run_in_loop / run_safe cover attempts against ONE source; since session 5 the machine `stepX` "
+        "(Model/PsyncMach.lean) has every constructor of `Loop` as an event - stale and foreign attempts with their own peers and ends, "
+        "source moves and replacements, collector passes, cache / position losses, back-off, Stop - and runX_in_loop / runX_safe / "
+        "runX_safe_stale / runX_stopped_attempts hold for EVERY event list whose events meet `EvX.ok` in the state they happen in (the "
+        "premises of the constructors: WF sources, `Agree`, a new id is new, `Collected`); those premises are hypotheses, not derived from a "
+        "model of Redis / of the operator. "
+        "Concurrency between syncMeta and the collector: `syncMetaG` lets IsValidOffset, GetRdb and DelRunId/SetRunId each see a later image "
+        "of the cache; gc_request_is_writer_start (EVERY schedule, no well-formedness: a granted continuation was asked with writer start + 1 "
+        "- N9's property), gc_none_eq (no pass = syncMeta), gc_old_second_read_breaks (the pre-23dcc75 reading under the schedule of N9); "
+        "compared op by op at every enumerated point (`gcp`). gc_reader_start_partial / gc_log_reader_partial: under every schedule and on whatever "
+        "later image the reader is created, a LOG reader of an attempt that was granted a continuation outside branch 4 starts at the stored "
+        "offset and the stored id is one the source serves (a pass can only make NewReader refuse). "
+        "gc_full_reader_partial: under every schedule (c3 well-formed), after a FULLRESYNC the cache the writer opens is exactly the "
+        "announced snapshot without log, and on it or any later collector image NewReader hands over THAT snapshot or refuses, never a log. "
+        "gc_branch4_reader_partial: in branch 4 after a granted continuation no LOG reader can open (the log starts at or behind the cached "
+        "snapshot in every image: chain c0 -> c2 -> c3 -> writer -> c5 of `Collected` facts). gc_schedule_safe_partial = the LOG-READER "
+        "clause of `gc_schedule_safe_stmt` PROVED for every state of `Loop`, every schedule and every later image at the reader: a log "
+        "reader is opened only after a granted continuation, exactly at the stored offset, under an id the source serves. "
+        "THE GAP of `gc_schedule_safe_stmt` (Props/C06Mach.lean, a `def … : Prop`, still NOT proved as a whole): its SNAPSHOT clause (the "
+        "cached snapshot handed over in branch 4 is still followed by its log in the image the reader sees) and the BYTES a log reader "
+        "then reads (CacheOK along the images; `loop_safe` gives them for the un-scheduled run only) - "
+        "i.e. the rest of the byte-level outcome under a schedule (`loop_safe` for "
+        "`syncMetaG` + a writer / reader that see still later images) - judged by the monitors of session C06d on the 96 enumerated "
+        "connections per run (a pass that removes the stored position ends in a refused reader; the follow-up connection clears the cache "
+        "and continues from the stored offset); passes of the MEMORY collector run only inside a writer's appends / finishAof "
+        "(memory_channel.go gcLocked callers), i.e. after the writer was created - scenario gcloop (monitor only), no enumeration; a pass "
+        "while a reader / writer of the SAME attempt holds references is C05's subject. "
         "Theorems that only RESTATE a definition (their content is the correspondence of that definition with the code): "
         "attemptP_stop_iff, attemptP_unchanged, bad_header_records_nothing, attemptP_ok, run_sleep_unchanged, run_stopped_fixed, "
         "run_break_stops, run_corrupted_stops, run_leaves_iff, syncMetaL_eq, attempt_delivered_stream, truth_unchanged_before_send; "
@@ -390,15 +473,26 @@ PROP = {
         "the truth of the target after a Send: afterSend_coupled couples C06's bookkeeping with the sender's target through the position "
         "(Coupled: the sender's unique largest record IS C06's stored offset, which C06 calls the truth) and proves the coupling is kept "
         "by ONE resumed life (C02 life_step with UniqueMax - resume mode, any configuration / schedule / wire prefix), with the meaning of "
-        "`.at id1 o` (specification split at o, overshoot repeated) on the sender's side. NOT derived: the composition over many lives "
-        "AND connections (sender_lives_beside_attempt only puts C02 lives_lose_nothing - which starts from a target WITHOUT position - "
-        "beside the attempt; its C06 conjuncts hold for every o); in-memory mode (no record on the target); the label of the record; "
+        "`.at id1 o` (specification split at o, overshoot repeated) on the sender's side. Session 5 (Props/C06Lives.lean): `Lives6` = any "
+        "number of such lives, reconnections of the sender, attempts that end before Send after a granted continuation (any stage, with "
+        "or without ErrCorrupted), collector passes and source moves; lives6_coupled: every such state is a `Loop` state AND coupled "
+        "(induction), lives6_next_start: the next log starts at the sender's unique largest record. `Lives6` now also has the step `snapshot` (a snapshot - the "
+        "source's after FULLRESYNC, or the cached one - is handed over and its replay completes; premise: the target the replay leaves holds "
+        "(id, left) as its unique largest record, what sendRdb stores - C03/C04/C20's subject) and carries the accumulated applied list: "
+        "lives6_coupled proves `T.applied = base ++ A`, base = the applied list when the last snapshot completed (or at the start), A = "
+        "life after life the commands up to the stored position plus the overshoot. NOT derived: that premise of `snapshot`; an "
+        "INTERRUPTED snapshot replay inside `Lives6` (the coupling is void until the next completed one); ( sender_lives_beside_attempt still only puts C02 lives_lose_nothing - which starts "
+        "from a target WITHOUT position - beside the attempt, its C06 conjuncts hold for every o); in-memory mode (no record on the target); the label of the record; "
         "that `raws` is the decoding of the delivered bytes (C12); a full instance of afterSend_coupled (only the coupling itself and "
         "each side are instantiated). The token `Truth` stays abstract in Model/Psync.lean and a completed SNAPSHOT replay still sets "
         "`.at id1 left` by definition (C03/C04/C20's subject), tied by the real-send window and cut schedules on the target's data",
         "bisync: the start position is composed from C14's model (frontier modes and sync mode) and the real bisyncStartPoint answer is run "
         "through the real syncMeta (4 ops); no bisync STREAM is replayed here (C13/C14), and the re-keying of bisync recovery state on a "
-        "run-id change is not part of `Loop`",
+        "run-id change is STILL not part of `Loop`: C17's relabel theorems (Model/BookRunIdSeq.lean, setRunIdSeq_fixed) speak about the concrete "
+        "checkpoint hash and `Ctl`, C06's `Tgt` is (label, offset, truth); session 5 re-read syncMeta's call of output.SetRunId against the "
+        "repaired SetRunId (/repo bf252d5, pendingRunId) and proved only failed_setRunId_outcomes: a call that fails after repointing the hash "
+        "changes the LABEL the next attempt reads, not offset, truth or cache - both outcomes are `Loop` states; no C06 source fact pins "
+        "SetRunId's text (the check passed unchanged on bf252d5..f794df4)",
     ],
 }
 
@@ -426,8 +520,13 @@ MANIFEST = {
             "stale attempt and the stages compared op by op with the real run()/Run() on the real RedisOutput; the position after a Send "
             "coupled with the sender's target for one resumed life (afterSend_coupled over C02 life_step; many lives only side by side); the "
             "bisync start position composed from C14 (bisync_outcome_continue_or_full, bisync_sync_mode_outcome); request-level crash "
-            "points of the output's bookkeeping (cut schedules; del_prefix_safe). Nine defects found and fixed (07a0622, 23cb23d, 58997e8, "
-            "a3509d3, 620d33c, 32a41ef, 837e4af, 6d4dd34, 23dcc75).",
+            "points of the output's bookkeeping (cut schedules; del_prefix_safe). Session 5: the whole loop as one machine whose events are ALL constructors of `Loop` "
+            "(runX_in_loop, runX_safe, runX_safe_stale); any answering source sharing no id with INFO's answers FULLRESYNC "
+            "(other_source_answers_full); collector passes between the readings of syncMeta as a scheduled model (`syncMetaG`: "
+            "gc_request_is_writer_start for every schedule) compared at every enumerated point of the real run() with the real disk "
+            "collector (session C06d, 96 connections per run); the coupling with the sender's target over any number of lives and "
+            "connections (lives6_coupled). Ten defects found and fixed (07a0622, 23cb23d, 58997e8, "
+            "a3509d3, 620d33c, 32a41ef, 837e4af, 6d4dd34, 23dcc75, feb3ca9).",
     "note": "trusted: Lean kernel (propext, Classical.choice, Quot.sound only), Redis PSYNC admission rule transcription, source double, "
             "target double; CacheOK/CacheWF are invariants of the loop (loop_inv; the collector step is C05's, bridged in "
             "Proofs/PsyncStore.lean) and checked by read-back; the label-based outcome_continue_or_full additionally needs StoredCompat, which is NOT an invariant "
